@@ -21,7 +21,7 @@ pub struct C12;
 const SHAPES: [&[i8]; 3] = [&[-1, 0], &[-1, 0, 1], &[-1, 0, 0]];
 const SR: u32 = 8;
 const IBS: usize = 2;
-const NODE_LETTERS: [&str; 13] = [
+const NODE_LETTERS: [&str; 15] = [
 	"pause(instant)",
 	"pause(2 frames)",
 	"resume(instant)",
@@ -35,6 +35,8 @@ const NODE_LETTERS: [&str; 13] = [
 	"play another sound on this track, then drop this track's handle (no callback in between)",
 	"pause(instant), then resume(instant) (no callback in between)",
 	"resume_at(Delayed 3 frames), then resume(2 frames) (no callback in between)",
+	"pause(instant), then drop this track's handle (no callback in between)",
+	"resume(2 frames), then drop this track's handle (no callback in between)",
 ];
 const GLOBAL_LETTERS: [&str; 3] = ["none", "start clock", "remove clock"];
 
@@ -229,6 +231,14 @@ fn run_history(shape: usize, pv: u8, seq: &[usize], ctx: &mut Ctx) {
 				12 => {
 					w.resume_node_at(i, StartTime::Delayed(Duration::from_secs_f64(3.0 / SR as f64)), StartM::Delayed(3.0 / SR as f64), 0.0);
 					w.resume_node(i, 2.0 / SR as f64);
+				}
+				13 => {
+					w.pause_node(i, 0.0);
+					w.drop_node_handle(i);
+				}
+				14 => {
+					w.resume_node(i, 2.0 / SR as f64);
+					w.drop_node_handle(i);
 				}
 				10 => {
 					if w.nodes[i].handle.is_some() {
